@@ -290,3 +290,8 @@ class HeatConsumer(BranchWOInternalsComponent):
         t_from = node_pit[from_nodes, TINIT]
         tout = branch_pit[f:t, TOUTINIT]
         res_table['deltat_k'].values[:] = t_from - tout
+
+        # consumers that are out of service or not supplied do not have results
+        inactive = ~get_lookup(net, "branch", "active_hydraulics")[f:t]
+        res_table['qext_w'].values[inactive] = np.nan
+        res_table['deltat_k'].values[inactive] = np.nan
